@@ -515,9 +515,15 @@ def min_max_mean(
     """
     mid = (maximum - mean) / (maximum - minimum)
     ii = [i / steps for i in range(steps)]
-    left = [minimum if i <= mid else ((mean - maximum) / i + maximum) for i in ii]
+    left = [
+        minimum if i <= mid else max(minimum, (mean - maximum) / i + maximum)
+        for i in ii
+    ]
     jj = [j / steps for j in range(1, steps + 1)]
-    right = [maximum if mid <= j else (mean - minimum * j) / (1 - j) for j in jj]
+    right = [
+        maximum if mid <= j else min(maximum, (mean - minimum) / (1 - j) + minimum)
+        for j in jj
+    ]
     # print(len(left))
     return Staircase(
         left=np.array(left), right=np.array(right), mean=I(mean, mean), steps=steps
